@@ -108,6 +108,22 @@ pub fn run_all(inp: &Inputs, reps: usize) -> Vec<(String, String)> {
             rec(format!("simplify_vw_preserve|{}|rep{}", name, rep), format!("{:?}", a.simplify_vw_preserve(0.6)));
             rec(format!("centroid+area|{}|rep{}", name, rep), format!("{:?}{:?}", a.centroid(), a.unsigned_area()));
         }
+        // triangle grids with several holes / several islands: stitching must return rings in one fixed order
+        for (gname, n, holes) in [("trigrid9-6holes", 9usize, vec![(1usize, 1usize), (1, 4), (1, 7), (4, 2), (4, 6), (7, 4)]), ("trigrid7-islands", 7, vec![(0, 3), (1, 3), (2, 3), (3, 3), (4, 3), (5, 3), (6, 3), (3, 0), (3, 1), (3, 2), (3, 4), (3, 5), (3, 6), (1, 1), (5, 5), (1, 5), (5, 1)])] {
+            let mut tris: Vec<Triangle<f64>> = vec![];
+            for i in 0..n {
+                for j in 0..n {
+                    if holes.contains(&(i, j)) {
+                        continue;
+                    }
+                    let (x, y) = (i as f64, j as f64);
+                    let c = |a: f64, b: f64| Coord { x: a, y: b };
+                    tris.push(Triangle(c(x, y), c(x + 1.0, y), c(x + 1.0, y + 1.0)));
+                    tris.push(Triangle(c(x, y), c(x + 1.0, y + 1.0), c(x, y + 1.0)));
+                }
+            }
+            rec(format!("stitch|{}|rep{}", gname, rep), format!("{:?}", tris.stitch_triangulation()));
+        }
         for (name, pts) in &inp.points {
             let mp = MultiPoint(pts.clone());
             rec(format!("k_nearest_concave_hull|{}|rep{}", name, rep), format!("{:?}", pts.k_nearest_concave_hull(3)));
